@@ -434,7 +434,7 @@ func logCodec() *codec {
 			}
 			return logFromPkg(&v), nil
 		},
-		readerKey: keySingleRead, zeroKey: "", whole: true,
+		readerKey: keySingleRead, zeroKey: keySizedShortRead, whole: true,
 	}
 }
 
